@@ -25,6 +25,7 @@ let p4 : (dump * n list) option ref = ref None
 let p12 = ref None and p14 = ref None
 let ins_calls = ref 0 and ins_bad = ref []
 let thm_in = ref 0 and thm_fail = ref 0 and thm_noord = ref 0 and thm_nohyp = ref 0
+let req_payloads : dobj list ref = ref []
 let mem_calls = ref 0 and mem_bad = ref []
 (* requests issued by the synthetic backend: insertions that start at the root (phase 10, not inside a memory-parent
    search) and memory insertions (phase 12), in order *)
@@ -85,6 +86,10 @@ let () =
               Stdlib.Array.iteri (fun i l -> if contains l "gdontmerge:1" then dm := n_of_int i :: !dm) p.raw_objs;
               p4 := Some (p.pd, !dm)
        | 10 -> p10 := Some p;
+               (if not !in_find_parent then
+                  (let h = kv_tbl (split_on ' ' p.raw_head) in
+                   if Stdlib.Hashtbl.find h "insroot" = "0" then
+                     req_payloads := Stdlib.List.nth p.pd.t_objs (int_of_string (Stdlib.Hashtbl.find h "ins")) :: !req_payloads));
                (if !lcpu_view <> None && not !in_find_parent then
                   (let h = kv_tbl (split_on ' ' p.raw_head) in
                    if Stdlib.Hashtbl.find h "insroot" = "0" then
@@ -155,10 +160,11 @@ let () =
        | 0 ->
          (if !ins_calls > 0 then (match !ins_bad with
             | [] -> print_endline ("inserts ok n=" ^ string_of_int !ins_calls ^ " inthm=" ^ string_of_int !thm_in ^ " putback=" ^ string_of_int !thm_fail
-                                   ^ " noord=" ^ string_of_int !thm_noord ^ " nohyp=" ^ string_of_int !thm_nohyp)
+                                   ^ " noord=" ^ string_of_int !thm_noord ^ " nohyp=" ^ string_of_int !thm_nohyp
+                                   ^ " cover=" ^ (if !thm_in = !ins_calls && cover_hyp_of !req_payloads then "1" else "0"))
             | l -> let (k, raw) = Stdlib.List.hd (Stdlib.List.rev l) in
                    print_endline ("inserts DIFF call=" ^ string_of_int k ^ " of " ^ string_of_int !ins_calls ^ " bad=" ^ string_of_int (Stdlib.List.length l) ^ " obj: " ^ raw)));
-         ins_calls := 0; ins_bad := []; thm_in := 0; thm_fail := 0; thm_noord := 0; thm_nohyp := 0;
+         ins_calls := 0; ins_bad := []; thm_in := 0; thm_fail := 0; thm_noord := 0; thm_nohyp := 0; req_payloads := [];
          (if !mem_calls > 0 then (match !mem_bad with
             | [] -> print_endline ("meminserts ok n=" ^ string_of_int !mem_calls)
             | l -> let (k, raw) = Stdlib.List.hd (Stdlib.List.rev l) in
